@@ -51,6 +51,8 @@ def _explore(db, ref, TR):
 
 
 def run(db, chk) -> None:
+    from ..specs.discipline import check_facade_stateless
+    check_facade_stateless(db, chk, "C14.R-facade-stateless", ['get_queue_length_time_series', 'get_memory_bw_time_series', 'generate_trace_with_counters', 'get_queue_length_summary', 'get_memory_bw_summary'])
     from ..specs.discipline import check_stateless
     check_stateless(db, chk, "C14.R-stateless", ['hta.analyzers.trace_counters'])      # the result is a function of the arguments: no state kept between calls, caller's Trace untouched
     chk.floor("C14.R-stateless", 4)
